@@ -78,27 +78,25 @@ def generate(rng, tier):
             else:
                 out.append(e)
         cases.append({'ast': ast, 'trace': out, 'errthru': True})
-    for i in range({'quick': 8, 'thorough': 150, 'search': 2}[tier]):
-        # scale: hundreds of keys live at once (created in waves), hundreds of inner keys per outer key, long keys,
-        # large windows - inner key arithmetic and live-key bookkeeping beyond small examples
-        inner = [rng.choice([['count', 1], ['to_list'], ['last'], ['identity']])]
-        k = rng.choice(['group', 'group', 'roll', 'roll', 'rollc', 'split', 'time_split', 'tee'])
-        if k == 'group':
-            hd = ['group', rng.choice([['id'], ['mod', 300], ['mod', 257]]), inner]
-        elif k == 'roll':
-            w, st = rng.choice([(64, 50), (130, 1), (257, 3), (50, 7), (3, 2)])
-            hd = ['roll', w, st, inner]
-        elif k == 'rollc':
-            hd = ['roll', rng.choice([1, 128, 300]), 0, inner]
-            hd[2] = hd[1]
-        elif k == 'split':
-            hd = ['split', rng.choice([['id'], ['floordiv', 50]]), inner]
-        elif k == 'time_split':
-            hd = ['time_split', ['id'], rng.choice([None, 40]), rng.choice([None, 2]), None, 1, inner]
-        else:
-            hd = ['tee', rng.choice(['zip', 'combine_latest', 'merge']), [[['first']], [['count', 1]], [['identity']]]]
-        ast = [hd] if rng.random() < 0.7 else [['group', ['mod', 3], [hd]]]
-        cases.append({'ast': ast, 'trace': muxgen.gen_trace_scale(rng, 'many_groups' if k == 'time_split' and False else None)})
+    # scale: hundreds of keys live at once (created in waves, slot indices 0..269 so that k and k+256 coexist), hundreds
+    # of inner keys per outer key, more than 32 windows open per key, long keys - inner key arithmetic and live-key
+    # bookkeeping beyond small examples.  A fixed list, every entry in every run.
+    def inner_():
+        return [rng.choice([['count', 1], ['to_list'], ['last'], ['identity']])]
+    scale_cfgs = [
+        (['roll', 40, 1, inner_()], 'long'), (['roll', 100, 3, inner_()], 'long'), (['roll', 130, 1, inner_()], 'long2'),
+        (['roll', 257, 3, inner_()], 'long'), (['roll', 64, 50, inner_()], 'long'), (['roll', 300, 300, inner_()], 'long'),
+        (['group', ['mod', 2], inner_()], 'many'), (['group', ['id'], [['group', ['mod', 2], inner_()]]], 'many_groups'),
+        (['group', ['mod', 300], inner_()], 'long'), (['group', ['id'], inner_()], 'many_groups'),
+        (['split', ['floordiv', 50], inner_()], 'many'), (['split', ['id'], inner_()], 'long'),
+        (['time_split', ['id'], None, 2, None, 1, inner_()], 'many'),
+        (['tee', 'zip', [[['first']], [['count', 1]], [['identity']]]], 'many'),
+        (['group', ['mod', 3], [['roll', 40, 1, inner_()]]], 'long'),
+    ]
+    reps = {'quick': 1, 'thorough': 10, 'search': 0}[tier]
+    for _ in range(reps):
+        for hd, shape in scale_cfgs:
+            cases.append({'ast': [hd], 'trace': muxgen.gen_trace_scale(rng, shape), 'scale': True})
     if tier != 'search':
         for d in ([1, 2] if tier == 'quick' else [1, 2, 3]):
             for ast in nestings(rng, d):
@@ -161,6 +159,8 @@ def coq_term(case, obs):
         # the trace is not well-formed in the model's sense (the key is created again while live), so no theorem
         # speaks about it; the slot-level model is still compared on the final output
         return muxlib.coq_muxcase(case['ast'], case['trace'], obs)
+    if case.get('scale'):
+        return 'MCRaised' if 'raised' in obs else 'MCSkip'      # judged by the monitors alone (the list-based model is slow here)
     base = muxlib.coq_muxcase(case['ast'], case['trace'], obs)
     if not base.startswith('MC '):
         return base
